@@ -31,7 +31,17 @@ P("C17",
 P("C12",
   "Restricted to the sequential lock discipline (typestate proof, no schedules): process() consults TryLock and refuses the request when the lock is not obtained; every function that reads-modifies-writes the datatype document (pushOperations, pullOperations, commitToMongoDB) has `lock held` as a precondition discharged at its call sites; finalize unlocks exactly what was locked; the lock name is collection:key. Data-race freedom, real parallel executions and the per-call context of cached local locks are NOT decided by this check.",
   "Lock objects are modelled as a ghost set of held locks (utils.Lock / sync.RWMutex extern contracts); blocking and fairness are not modelled.")
+P("C10",
+  "Restricted: proof that the exported meta carries key, type, DUID and the complete operation identifier (GetMeta), and that the server's rebuild (snapshot.Manager.GetLatestDatatype) imports the latest snapshot and replays exactly the operations stored after it, once. The snapshot encode/decode inverse pairs of the four datatypes (MarshalJSON/UnmarshalJSON) are not yet under contract, so `restored instance behaves identically` is not decided here.")
+P("C11",
+  "Proof over ghost database state (trusted contracts on the repository methods): GetLatestDatatype rebuilds from the latest snapshot plus exactly the later operations and reports the end of the log as its version; UpdateSnapshot stores that state as snapshot document and as user-visible document under the same version, stores nothing user-visible when it fails, and releases its lock. Equality of the stored bytes with the replayed state relies on C10's round trip (hypothesis), version monotonicity across racing updates is not decided (schedules).",
+  "G.stored / G.snapSseq ghost view of MongoDB; consecutive numbering of a range query is the C06 invariant.")
+P("C18",
+  "Proof of the server publish clause and the client checkpoint filter: finalize spawns the announcement iff the request succeeded and stored at least one operation; sendNotification/NotifyAfterPushPull publish exactly one message on topic collection/key carrying the pusher's CUID, the DUID and the new end of the log; NeedPull compares with the client's checkpoint, which only moves forward. Self-convergence of realtime clients under real concurrent delivery is NOT decided (schedules).",
+  "paho Publish modelled as a ghost counter + last topic/payload; json.Marshal records the marshalled object in ghost state.")
+P("C19",
+  "Restricted to the REST endpoint: proof that PatchDocument continues an existing document at the version it was rebuilt at (checkpoint (version,0) set exactly once), reports a push its handler refused, answers or errors, and releases its lock. The client-side PatchByJSON / patchEach / JSON-pointer path and jsondiff are not yet under contract.")
 _pending = "not claimed yet: machinery for this property is still being built in this session (no check registered, nothing reported)"
-for p in ["C01","C04","C10","C11","C18","C19"]:
+for p in ["C01","C04"]:
     NA[p] = _pending
 NA["C20"] = "quantified over thread schedules only (unsynchronised isLocked/txCtx read racing with BeginTransaction): a sequential weakest-precondition calculus has no second thread; a sequential lock-balance proof would pass while the property is false (DESIGN.md section 6)"
